@@ -1,9 +1,27 @@
-import Autog.Lemmas.SegmentInsideRects
-/-! # C19
-    Corridor containment checker. -/
+import Autog.Spec.Geom
+/-! # C19 — corridor shortest path stays inside the corridor and is shortest
+
+    PARTIAL. The real router (`geom.Shortest`: special-case triangulation, dual graph, funnel) has no exact model here.
+    The property is decided per returned path by VERIFIED CHECKERS over exact rationals (every float64 the code returns is
+    a rational; the harness prints it exactly):
+    * containment: `segInside_sound` — an accepted segment lies in the union of the corridor's rectangles for every
+      parameter in [0, 1];
+    * length: `sqrtBounds_lo/hi` — the bounds used to compare lengths are true bounds, so "a strictly shorter path inside
+      the corridor exists" is only ever reported with a validated witness (found by an independent visibility-graph
+      search in the harness).
+    That the funnel algorithm always returns the shortest path is not proved. -/
 
 namespace Autog
 
-theorem C19_segment_inside : type_of% @SegmentInsideRects.segment_inside := @SegmentInsideRects.segment_inside
+theorem C19_containment_checker_sound : type_of% @segInside_sound := @segInside_sound
+theorem C19_length_lower_bound : type_of% @sqrtBounds_lo := @sqrtBounds_lo
+theorem C19_length_upper_bound : type_of% @sqrtBounds_hi := @sqrtBounds_hi
+
+/-- the checker accepts a path inside a two-rectangle corridor and rejects one that cuts the corner -/
+def exCorr : Corridor := [⟨0, 4, 0, 2⟩, ⟨2, 8, 2, 4⟩]
+example : corridorWF exCorr = true := by decide +kernel
+example : pathInside exCorr [(1, 0), (3, 2), (7, 4)] = true := by decide +kernel
+example : pathInside exCorr [(1, 0), (7, 4)] = true := by decide +kernel
+example : pathInside exCorr [(3, 0), (0, 4)] = false := by decide +kernel
 
 end Autog
